@@ -181,7 +181,7 @@ class Renderer:
             return [f"{p}{s['name']} = Signal[{T}]({self.rx(s['e'])})"]
         if k == "localvar":
             T = "Bit" if s["kind"] == "bit" else f"Unsigned[{s.get('w', self.W)}]"
-            return [f"{p}{s['name']} = Variable[{T}]({self.rx(s['e'])})"]
+            return [f"{p}{s['name']} = Variable[{T}]({self.rx(s['e'])}, name='{s['name']}')"]
         if k == "await":
             c = s["c"]
             if c in ("true", "false"):
